@@ -548,6 +548,8 @@ class SoftwareSwitchBase (object):
       raise RuntimeError("Can't remove nonexistent port " + str(port_no))
     self.send_port_status(port, OFPPR_DELETE)
     del self.ports[port_no]
+    # A port which is gone has no stats to report
+    self.port_stats.pop(port_no, None)
     return port
 
   def add_port (self, port):
